@@ -263,18 +263,19 @@ def check(scenario, w, st, res):
     if imm:
         ob()
         caller = None
-        for seq, tid, kind, detail in sim.history:
+        for seq, tid, kind, detail, _vt in sim.history:
             if seq == disc.inv:
                 caller = tid
-        for seq, tid, kind, detail in sim.history:
+        for seq, tid, kind, detail, _vt in sim.history:
             if disc.inv < seq < disc.ret and tid == caller and kind == 'send':
                 V.append(('C12/send-during-immediate-disconnect', seq))
                 break
     # 6. after the socket was shut down no byte reaches the server
-    shut = [seq for seq, tid, kind, d in sim.history if kind == 'shutdown']
+    shut = [seq for seq, tid, kind, d, _vt in sim.history
+            if kind == 'shutdown']
     if shut:
         ob()
-        late = [seq for seq, tid, kind, d in sim.history
+        late = [seq for seq, tid, kind, d, _vt in sim.history
                 if kind == 'send' and seq > shut[0]]
         if late:
             V.append(('C12/send-after-shutdown', late[:3]))
